@@ -57,6 +57,10 @@ class Lin:
                 if f == 'self.pop_value' and len(args) >= 2:
                     self.consume(args[1], 'pop_value', e.line)
                     continue
+                rel = getattr(self, 'releasers', {})
+                if f.startswith('self.') and f[5:] in rel and len(args) > rel[f[5:]]:
+                    self.consume(args[rel[f[5:]]], f[5:], e.line)
+                    continue
                 if f == 'self.create_new_stack_array':
                     o = src(e.kwargs.get('origin_bubble')) if 'origin_bubble' in e.kwargs else (args[1] if len(args) > 1 else None)
                     l = src(e.kwargs.get('length_bubble')) if 'length_bubble' in e.kwargs else (args[2] if len(args) > 2 else None)
@@ -101,6 +105,10 @@ class Lin:
                     continue
                 if e.target == 'self.stack' and 'offset=-1' in src(v):
                     self.overlay = True
+                # the tail of a release written out in place: `self.stack = b.prev`
+                if e.target == 'self.stack' and isinstance(v, ast.Attribute) and v.attr == 'prev' and isinstance(v.value, ast.Name) \
+                        and v.value.id in self.stack:
+                    self.consume(v.value.id, 'release', e.line)
             elif e.kind == 'assert':
                 # `assert ... x.vacuous`: x holds nothing
                 for n in ast.walk(e.node.test) if isinstance(e.node, ast.Assert) else []:
@@ -193,6 +201,7 @@ def run(repo, chk):
             if p.outcome == 'raise':
                 continue
             lin = Lin(fn, ev, params)
+            lin.releasers = gf.releasers()
             probs = lin.run()
             if p.outcome == 'fall' and lin.stack and not probs:
                 probs.append((f'end with live {lin.stack}', f'function ends while bubbles {lin.stack} are still allocated',
@@ -270,8 +279,23 @@ def run(repo, chk):
           if any(e.kind == 'case' and 'CodeBlock' in e.text for e in ev) and p.outcome != 'raise']
     chk.floor('CodeBlock paths', len(cb), 2)
     for p, ev in cb:
-        pops = [e for e in ev if e.kind in ('sub', 'silent') and e.func == 'self.pop']
-        ok = len(pops) == 1 and src(pops[0].args[0]) == 'bubble' and src(pops[0].kwargs.get('static')) == 'False'
+        # the release of the block's bubble, by role: a releasing method (pop and whatever was split off from it) spliced in,
+        # drained or called - or the tail of one written out in place (`self.stack = bubble.prev`)
+        rel = gf.releasers()
+        pops = [e for e in ev if e.kind in ('sub', 'silent', 'call') and e.func.startswith('self.') and e.func[5:] in rel
+                and len(e.args) > rel[e.func[5:]] and src(e.args[rel[e.func[5:]]]) == 'bubble']
+        inline = [e for e in ev if e.kind == 'assign' and e.target == 'self.stack' and src(e.value) == 'bubble.prev' and not
+                  any(q.kind in ('sub', 'silent', 'call') and q in pops for q in ev if False)]
+        # (an inlined helper's own `self.stack = bubble.prev` belongs to its call only when that call is an event of this path)
+        inline = inline if not pops else []
+
+        def dynamic(e):
+            if e.func == 'self.pop':
+                return src(e.kwargs.get('static')) == 'False'
+            body = src(gf.methods[e.func[5:]])
+            return 'reset_ap' in body and 'static_array_size' not in body
+        ok = len(pops) + len(inline) == 1 and (bool(inline) or pops[0].kind != 'sub' or dynamic(pops[0])) and \
+            (bool(inline) or pops[0].kind == 'sub' or pops[0].func != 'self.pop' or dynamic(pops[0]))
         gs = [e for e in ev if e.kind == 'sub' and e.func == 'self.gen_stmts']
         ok = ok and len(gs) == 1 and gs[0].bound == ('exited', 'bubble')
         chk.expect(ok, 'C08.L3', f'gen_block[CodeBlock]::pop ({pops[0].kind if pops else "none"})',
